@@ -176,6 +176,10 @@ mut("ok-nullpad-no-extra-block", ["C09"], "crysp/padding.py",
     "        if padding:\n            cnt = self.bitcnt\n",
     "        if padding:\n            if len(Pi)==0 and self.bitcnt>0 and type(self).__name__=='Nullpadding':\n                self.padflag = True\n                return\n            cnt = self.bitcnt\n",
     "zero padding emits no extra all-zero block for an empty final piece after continuation data: an equally valid reading of 'minimum number of blocks'", expect="clean")
+mut("ok-eager-refusal", ["C09", "C10", "C14"], "crysp/padding.py",
+    "    def iterblocks(self,m,**kargs):\n        padding = kargs.get('padding',True)\n        if self.padflag: raise PaddingError(\"padding already added\")\n        mlen = len(m)*8\n        bitlen = kargs.get('bitlen',None) or mlen\n        if bitlen>mlen: raise PaddingError('input bitlen mismatch')\n        if padding is False and bitlen%self.blocksize>0:\n            raise PaddingError('input not a multiple of block size')\n",
+    "    def iterblocks(self,m,**kargs):\n        # argument errors are reported at the call site, the blocks are still produced lazily\n        padding = kargs.get('padding',True)\n        mlen = len(m)*8\n        bitlen = kargs.get('bitlen',None) or mlen\n        if bitlen>mlen: raise PaddingError('input bitlen mismatch')\n        if padding is False and bitlen%self.blocksize>0:\n            raise PaddingError('input not a multiple of block size')\n        return self._iterblocks(m,**kargs)\n    def _iterblocks(self,m,**kargs):\n        padding = kargs.get('padding',True)\n        if self.padflag: raise PaddingError(\"padding already added\")\n        mlen = len(m)*8\n        bitlen = kargs.get('bitlen',None) or mlen\n",
+    "argument refusals (bit length beyond the data, unaligned unpadded input) raised eagerly at the call, state-dependent part stays lazy: still refusals", expect="clean")
 # a second defect on the kind of an open known finding must still be reported
 mut("c10-nullpad-other-defect", ["C10"], "crysp/padding.py",
     "        b=Bits(m[-self.blocklen:])\n        b.size -= self.padcnt\n        return m[:-self.blocklen]+b.bytes()",
